@@ -100,6 +100,10 @@ def gen_scenario(rng, i):
         r = rng.random()
         if r < 0.12:
             pre[cfg + '/merchant_categories.csv.bak'] = 'Pattern,Merchant,Category,Subcategory\nOLDBACKUP,Old,Misc,Old\n'
+            t = files.get(cfg + '/merchant_categories.csv', '')
+            if rng.random() < 0.5 and len(t) > 45:
+                # same size, same time stamp, other content
+                pre[cfg + '/merchant_categories.csv.bak'] = t[:40] + ('X' if t[40] != 'X' else 'Y') + t[41:]
         elif r < 0.24 and variant != 'init':
             pre[cfg + '/merchants.rules'] = '# my hand-written rules\n[Old Rule]\nmatch: contains("OLDRULE")\ncategory: Misc\n'
         r = rng.random()
